@@ -10,6 +10,9 @@ Inductive fname :=
 | FUpcase | FDowncase | FAppend | FPrepend | FSize | FDefault
 | FPlus | FMinus | FTimes | FJoin | FFirst | FLast.
 
+(** lambda-aware filters called with a one-parameter arrow function *)
+Inductive lfname := LMap | LWhere | LReject | LFind | LFindIndex | LHas.
+
 Inductive expr :=
 | ELit (v : val)                       (* nil true false int string empty blank *)
 | ERange (lo hi : expr)
@@ -21,6 +24,7 @@ Inductive expr :=
 | ECmp (op : cmpop) (a b : expr)
 | EFilter (e : expr) (f : fname) (args : list expr)
 | ETernary (cond a : expr) (alt : option expr)   (* a if cond else alt *)
+| EFilterL (e : expr) (f : lfname) (param : str) (body : expr)   (* e | f: param => body *)
 with seg :=
 | SKey (k : str)
 | SIdx (i : Z)
